@@ -46,6 +46,10 @@ func runAudit(id string, c *eng.Ctx, seed int) *auditResult {
 	res := &auditResult{ByOperator: map[string]int{}, ByRule: map[string]int{},
 		Note: "syntactic mutants (negated/relaxed conditions, swapped relational and logical operators, deleted calls/defers/continue/assignments, dropped ±1) of every function that contains a discharged obligation of this property; evaluated with the quick-tier analysis through the go/packages overlay, nothing is executed. Survivors are expected: many mutants do not touch the property (equivalent or irrelevant to it)."}
 	lines := map[string]map[int]bool{}
+	// obligations of the lock-discipline and lock-pairing rules anchor whole files; functions that (also) carry an obligation
+	// of another rule are mutated first, so that the cap is not spent on code the property-specific rules do not look at
+	prio := map[string]map[int]bool{}
+	lockRule := map[string]bool{"R01.4": true, "R02.5": true, "R03.8": true, "R06.7": true, "R07.8": true, "R11.6": true, "R12.6": true, "R13.5": true, "R15.7": true}
 	for _, o := range c.Obs {
 		if o.Status != eng.Discharged {
 			continue
@@ -63,6 +67,12 @@ func runAudit(id string, c *eng.Ctx, seed int) *auditResult {
 			lines[f] = map[int]bool{}
 		}
 		lines[f][n] = true
+		if !lockRule[o.Rule] {
+			if prio[f] == nil {
+				prio[f] = map[int]bool{}
+			}
+			prio[f][n] = true
+		}
 	}
 	var all []mutate.Mutant
 	funcs := map[string]bool{}
@@ -82,10 +92,24 @@ func runAudit(id string, c *eng.Ctx, seed int) *auditResult {
 		all = append(all, ms...)
 	}
 	res.Functions = len(funcs)
-	const capN = 480
+	const capN = 640
 	if len(all) > capN {
+		prioFunc := map[string]bool{}
+		for _, f := range files {
+			if len(prio[f]) == 0 {
+				continue
+			}
+			if ms, err := mutate.File(f, prio[f]); err == nil {
+				for _, m := range ms {
+					prioFunc[m.File+":"+m.Func] = true
+				}
+			}
+		}
 		r := rand.New(rand.NewSource(int64(seed) + 1))
 		r.Shuffle(len(all), func(i, j int) { all[i], all[j] = all[j], all[i] })
+		sort.SliceStable(all, func(i, j int) bool {
+			return prioFunc[all[i].File+":"+all[i].Func] && !prioFunc[all[j].File+":"+all[j].Func]
+		})
 		res.Capped = len(all) - capN
 		all = all[:capN]
 	}
